@@ -6,6 +6,7 @@ import (
 	"errors"
 	"io"
 	"net/http"
+	"sync"
 	"time"
 
 	"github.com/omec-project/upf-epc/zzverif/vsim"
@@ -230,4 +231,103 @@ func HTTPShutdown(srv *http.Server, ctx context.Context) error {
 		}
 	})
 	return nil
+}
+
+// HTTPTimeoutHandler stands in for net/http.TimeoutHandler, whose own goroutine
+// and real-time timer the simulator could not schedule: the inner handler runs as
+// a task of its own against a buffered writer; if it has not returned after dt of
+// virtual time the client is answered 503 with msg and the inner handler goes on
+// in the background, its later writes failing with http.ErrHandlerTimeout -
+// exactly what the library does.
+func HTTPTimeoutHandler(h http.Handler, dt time.Duration, msg string) http.Handler {
+	return &simTimeoutHandler{h: h, dt: dt, msg: msg}
+}
+
+type simTimeoutHandler struct {
+	h   http.Handler
+	dt  time.Duration
+	msg string
+}
+
+type simTimeoutWriter struct {
+	mu       sync.Mutex
+	hdr      http.Header
+	status   int
+	nwh      int
+	body     bytes.Buffer
+	timedOut bool
+	done     bool
+	panicked interface{}
+}
+
+func (w *simTimeoutWriter) Header() http.Header { return w.hdr }
+func (w *simTimeoutWriter) WriteHeader(c int) {
+	w.mu.Lock()
+	defer w.mu.Unlock()
+	if w.timedOut {
+		return
+	}
+	w.nwh++
+	if w.status == 0 {
+		w.status = c
+	}
+}
+func (w *simTimeoutWriter) Write(b []byte) (int, error) {
+	w.mu.Lock()
+	defer w.mu.Unlock()
+	if w.timedOut {
+		return 0, http.ErrHandlerTimeout
+	}
+	if w.status == 0 {
+		w.nwh++
+		w.status = 200
+	}
+	return w.body.Write(b)
+}
+
+func (t *simTimeoutHandler) ServeHTTP(w http.ResponseWriter, r *http.Request) {
+	ctx, cancel := vsim.WithTimeout(r.Context(), t.dt)
+	defer cancel()
+	r = r.WithContext(ctx)
+	tw := &simTimeoutWriter{hdr: http.Header{}}
+	vsim.Go(-1, func() {
+		defer func() {
+			x := recover()
+			tw.mu.Lock()
+			tw.done, tw.panicked = true, x
+			tw.mu.Unlock()
+		}()
+		t.h.ServeHTTP(tw, r)
+	})
+	deadline := vsim.Now().Add(t.dt)
+	vsim.AfterFunc(t.dt, func() {}) // an event at the deadline wakes the poll below
+	vsim.Block(func() bool {
+		tw.mu.Lock()
+		d := tw.done
+		tw.mu.Unlock()
+		return d || !vsim.Now().Before(deadline)
+	})
+	tw.mu.Lock()
+	defer tw.mu.Unlock()
+	if tw.done {
+		if tw.panicked != nil {
+			panic(tw.panicked)
+		}
+		dst := w.Header()
+		for k, v := range tw.hdr {
+			dst[k] = v
+		}
+		for i := 0; i < tw.nwh; i++ {
+			if i == 0 {
+				w.WriteHeader(tw.status)
+			} else {
+				w.WriteHeader(tw.status) // a superfluous WriteHeader of the inner handler stays visible
+			}
+		}
+		w.Write(tw.body.Bytes())
+		return
+	}
+	tw.timedOut = true
+	w.WriteHeader(http.StatusServiceUnavailable)
+	io.WriteString(w, t.msg)
 }
